@@ -2336,8 +2336,8 @@ def run_C07(ck):
         b2 = bytes([rng.choice([0, 1, 2, 3, 0x7f, 0x80, 0xa0, 0xc0, 0xe0, 0xff])]) + rng.bytes(rng.range(0, 40))
         add('lzma2_dec in=%s' % hx(b2), 'random_lzma2')
         add('xz_dec in=%s' % hx(XZ_MAGIC + rng.bytes(rng.range(0, 60)) if rng.chance(1, 2) else rng.bytes(rng.range(0, 60))), 'random_xz')
-        add('raw_lzma lc=%d lp=%d pb=%d dict=%d size=%s mem=%s ops=d:%s;r;d:%s' % (rng.range(0, 8), rng.range(0, 4), rng.range(0, 4), rng.choice([0, 1, 2, 7, 4096, 0xFFFFFFFF]),
-            rng.choice(['none', '0', '3', str(ALL_ONES)]), mem(), hx(rng.bytes(rng.range(0, 40))), hx(rng.bytes(rng.range(0, 20)))), 'random_raw')
+        add('raw_lzma lc=%d lp=%d pb=%d dict=%d size=%s mem=%s ops=d:%s;%s;d:%s' % (rng.range(0, 8), rng.range(0, 4), rng.range(0, 4), rng.choice([0, 1, 2, 7, 4096, 0xFFFFFFFF]),
+            rng.choice(['none', '0', '3', str(ALL_ONES)]), mem(), hx(rng.bytes(rng.range(0, 40))), rng.choice(['r', 'r', 'rn', 'rs:0', 'rs:3', 'rs:%d' % ALL_ONES]), hx(rng.bytes(rng.range(0, 20)))), 'random_raw')
         add('raw_lzma2 ops=d:%s;r;d:%s' % (hx(b2), hx(rng.bytes(rng.range(0, 20)))), 'random_raw2')
     for s in lz:
         for _ in range(6):
